@@ -91,6 +91,8 @@ type Sched struct {
 	Weight func(p *Proc, step int) int
 	// OnCommit runs after every committed step (monitors, trace capture). A non-nil error ends the run.
 	OnCommit func(st Step) error
+	// OnAbort runs after every aborted attempt (the attempt must have had no effect). A non-nil error ends the run.
+	OnAbort func(p *Proc, label string) error
 	// IdleRounds is the number of consecutive rounds without a commit after which the run ends (default 3).
 	IdleRounds int
 	// ParkAlways parks every aborted attempt until the next commit (the simple discipline), instead of keeping
@@ -349,6 +351,12 @@ func (s *Sched) Run(maxSteps int) RunResult {
 			p.Aborts++
 			s.Aborts++
 			sinceCommit++
+			if s.OnAbort != nil {
+				if err := s.OnAbort(p, label); err != nil {
+					res.Err, res.ErrProc, res.MonitorErr = err, p, true
+					break
+				}
+			}
 			// An attempt that consulted a choice may succeed with another answer: it stays schedulable.
 			// A deterministic abort is parked until a commit writes a cell it accessed (or an idle round).
 			if !p.chose || s.ParkAlways {
